@@ -51,6 +51,7 @@ def strategy(tier):
                   st.one_of(st.just(-1), st.just(-1), st.integers(0, 6))),
         st.tuples(st.just("reopen"), ti, li),
         st.tuples(st.just("snapwrite"), ti, li, op),
+        st.tuples(st.just("snapbatch"), ti, li, st.lists(op, min_size=1, max_size=4)),
     )
     return st.fixed_dictionaries(
         {
@@ -124,6 +125,27 @@ def exec_step(w, step, ledger_roots, ledger, faulty):
         root = ledger_roots[step[2] % len(ledger_roots)]
         w.tries[i] = impl("construct", HexaryTrie, w.db, root)
         w.models[i] = dict(ledger[root])
+    elif kind == "snapbatch":
+        root = ledger_roots[step[2] % len(ledger_roots)]
+        parent_root = bytes(t.root_hash)
+        cm = impl("at_root", t.at_root, root)
+        snap = cm_enter("at_root", cm)
+        smodel = dict(ledger[root])
+        cm2 = impl("squash_changes", snap.squash_changes)
+        b = cm_enter("squash_changes", cm2)
+        for iop in step[3]:
+            _, what = apply_simple(b, smodel, iop)
+            facts["delete"] |= what in ("delete", "set-empty")
+        status, _ = cm_exit("squash_changes-exit", cm2, allowed=allowed)
+        snap_root = bytes(snap.root_hash)
+        cm_exit("at_root-exit", cm)
+        expect_eq("snapshot-write-keeps-parent-root", bytes(t.root_hash), parent_root,
+                  "parent trie's root after a batch through an at_root snapshot")
+        if status == "raised":
+            expect_eq("fault-keeps-root", snap_root, root, "snapshot root after a failed batch commit")
+            return True, new, facts
+        facts["batch_commit"] = True
+        new.append((snap_root, smodel))
     elif kind == "snapwrite":
         root = ledger_roots[step[2] % len(ledger_roots)]
         parent_root = bytes(t.root_hash)
@@ -181,7 +203,7 @@ def run_case(case):
     steps = case["steps"]
     for no, step in enumerate(steps):
         snapshot = dict(w.db)
-        mutating = step[0] in ("op", "batch", "snapwrite")
+        mutating = step[0] in ("op", "batch", "snapwrite", "snapbatch")
         if mutating:
             # fault-free execution on a clone: number of writes W and resulting roots
             c = w.clone()
